@@ -324,7 +324,7 @@ func (st *ex4State) workload(cl *nclient4.Client, w int) {
 		if d.err != nil || d.offer == nil {
 			return
 		}
-		sleep(pick(t, 0, 0, ms(1), st.T/2), siteEx4Main)
+		sleep(pick(t, 0, 0, ms(1), st.T/2, ms(1100)), siteEx4Main) // ms(1100): the application pauses across a wall-clock second
 		o := st.op("requestFromOffer", func(o *ex4Op) {
 			o.offer = d.offer
 			o.lease, o.err = cl.RequestFromOffer(ctx, d.offer, st.mods()...)
